@@ -29,15 +29,16 @@ import (
 func init() { cmds["record-view"] = recordView }
 
 type viewCase struct {
-	ID       int   `json:"id"`
-	Seed     int64 `json:"seed"`
-	Writers  int   `json:"writers"`
-	Readers  int   `json:"readers"`
-	Ops      int   `json:"ops"`      // writes per writer
-	Flushes  int   `json:"flushes"`  // forced flushes
-	Compacts int   `json:"compacts"` // compaction / merge triggers
-	CloseMid bool  `json:"close_mid"`
-	Settle   bool  `json:"settle"` // wait for background loads after writes (removes the F-C04-1 window)
+	ID          int   `json:"id"`
+	Seed        int64 `json:"seed"`
+	Writers     int   `json:"writers"`
+	Readers     int   `json:"readers"`
+	Ops         int   `json:"ops"`      // writes per writer
+	Flushes     int   `json:"flushes"`  // forced flushes
+	Compacts    int   `json:"compacts"` // compaction / merge triggers
+	CloseMid    bool  `json:"close_mid"`
+	Settle      bool  `json:"settle"` // wait for background loads after writes (removes the F-C04-1 window)
+	ReopenFirst bool  `json:"reopen_first"`
 }
 
 type viewEvent map[string]interface{}
@@ -106,6 +107,22 @@ func runViewCase(c *viewCase, root string) (res viewResult) {
 	}
 	e.IndexFlush()
 	e.Settle()
+	if c.ReopenFirst {
+		// start the concurrent phase on a freshly re-opened shard that already has ordered files: the
+		// first writes then race the asynchronous reload of the per-series flush times
+		e.Flush()
+		if err := e.Close(); err != nil {
+			res.Infra = "close: " + err.Error()
+			return
+		}
+		e, err = engx.Open(dir, engx.Options{WalParts: 1 + rng.Intn(3), MaxRowsPerSegment: []int{0, 3, 5}[rng.Intn(3)], Background: rng.Intn(2) == 0})
+		if err != nil {
+			res.Infra = "reopen: " + err.Error()
+			return
+		}
+		e.NoSettle = !c.Settle
+		setSmallCompactionGroups()
+	}
 	res.Cells, res.Clients = cells, clients
 
 	var closed int32
@@ -275,12 +292,12 @@ func runViewCase(c *viewCase, root string) (res viewResult) {
 	}()
 	select {
 	case <-done:
-	case <-time.After(90 * time.Second):
+	case <-time.After(time.Duration(viewWatchdogSec()) * time.Second):
 		fmt.Fprintf(os.Stderr, "WATCHDOG: view case %d did not finish (deadlock?)\n", c.ID)
 		_ = pprof.Lookup("goroutine").WriteTo(os.Stderr, 1)
 		res.OK = false
 		res.Hang = true
-		res.Detail = "operations and close did not finish within 90 s (goroutine dump on stderr)"
+		res.Detail = "operations and close did not finish (watchdog; goroutine dump on stderr)"
 		b, _ := json.Marshal(res)
 		fmt.Println(string(b))
 		os.Exit(3)
@@ -319,6 +336,14 @@ func orderedFilesOverlap(e *engx.Env) bool {
 		}
 	}
 	return false
+}
+
+func viewWatchdogSec() int {
+	sec := 90
+	if v := os.Getenv("VH_WATCHDOG"); v != "" {
+		fmt.Sscanf(v, "%d", &sec)
+	}
+	return sec
 }
 
 func recordView(args []string) int {
